@@ -35,7 +35,9 @@ func (r Revision) String() string {
 		return "unset"
 	}
 	if r.N < 0 {
-		return fmt.Sprintf("x%d", -r.N)
+		// drop the sign from the decimal form instead of negating,
+		// which overflows for the smallest int
+		return "x" + strconv.Itoa(r.N)[1:]
 	}
 	return strconv.Itoa(r.N)
 }
@@ -91,10 +93,11 @@ func ParseRevision(s string) (Revision, error) {
 	if s == "unset" {
 		return Revision{}, nil
 	}
-	if s != "" && s[0] == 'x' {
-		i, err := strconv.Atoi(s[1:])
-		if err == nil && i > 0 {
-			return Revision{-i}, nil
+	if len(s) > 1 && s[0] == 'x' && s[1] != '-' {
+		// parse as a negative number so that the smallest int reads back
+		i, err := strconv.Atoi("-" + s[1:])
+		if err == nil && i < 0 {
+			return Revision{i}, nil
 		}
 	}
 	i, err := strconv.Atoi(s)
